@@ -92,7 +92,7 @@ def oracle(case, out):
         prev = g.prev
         busy_before = {p: (g.owed_of(p), g.live_of(p)) for p in range(0, 8)}
         g.update(i, op, obs)
-        if not g.contract:
+        if not g.contract or g.clash:
             break          # the environment broke its contract: nothing more to say about this history
         # --- API answers
         if t[0] in ("dial", "dialaddr"):
